@@ -79,6 +79,7 @@ class _File:
 class Copy(Contract):
     target = f"{FOP}:_copy"
     props = ["C15"]
+    not_assumed = ("a-cross-file-move-removes-the-source",)   # known finding: never assumed by callers
 
     def configs(self, v):
         from pyvc.values import LibFunc, LibNS
